@@ -19,6 +19,7 @@ PROPS = {
     "C10": dict(level="exploration", shards=(4, 16), timeout=(900, 3000), assumptions=COMMON + ["the order in which the scripted peer receives elements is the wire order; quiescence after each step is detected by waiting for the expected number of elements (4 s, 16 s on the confirming re-run) plus a short settle time"], race=dict(pattern="^TestC10_smqueue$", shards=(2, 8), timeout=(900, 3000), scale=0.25, quick=False)),
     "C11": dict(level="fault_enumeration", shards=(8, 16), timeout=(900, 3000), assumptions=COMMON + ["loopback TCP; the peer's record of the ids it handed out and of the <resume/> elements it received is the truth"]),
     "C12": dict(level="fault_enumeration", shards=(8, 16), timeout=(900, 3000), assumptions=COMMON + ["a half-close on loopback TCP delivers all previously written bytes, then EOF", "stable state is detected by polling runtime.Stack for up to 3 s (12 s on the confirming re-run)"]),
+    "C13": dict(level="fault_enumeration", shards=(16, 16), timeout=(1200, 3400), assumptions=COMMON + ["loopback TCP; a closed listener refuses connections; the listener can be reopened on the same port", "reconnection is awaited for 8 s plus the down time (32 s on the confirming re-run); the library's back-off starts at < 20 ms and doubles"]),
     "C14": dict(level="exploration", shards=(4, 16), timeout=(600, 3000), assumptions=COMMON + ["loopback TCP delivers bytes in order; the scripted peer's transcript is what the client wrote"]),
     "C15": dict(level="exploration", shards=(2, 16), timeout=(300, 1500), assumptions=COMMON, fuzz=[("FuzzC15", 60)]),
     "C16": dict(level="exploration", shards=(4, 16), timeout=(600, 3000), assumptions=COMMON + ["loopback TCP delivers bytes in order; the scripted peer's transcript is what the component wrote"]),
@@ -31,6 +32,11 @@ NOT_APPLICABLE = {}
 
 # Texts for MANIFEST.json
 TEXT = {
+    "C13": dict(
+        technique="fault-sequence property test (rapid): generated sequences of losses, refusals and failing reconnection attempts against a Client run by StreamManager; oracle on the scripted peer's accept log",
+        level_text="Fault enumeration over the loss alphabet {TCP reset, graceful close, </stream:stream>} x {server keeps listening, refuses connections for a while} x {0-3 reconnection attempts cut at stream open / auth / bind} x {resumption confirmed, refused} x {finally accepted, permanently rejected by SASL failure}, composed into generated sequences of 1-3 losses. After each loss exactly one new session must appear (resumed when allowed), exactly failing-attempts+1 connections may reach the server, the new session must carry traffic both ways, PostConnect must have run once per session, a permanent error must end the retries, Stop must make Run return.",
+        level_note="96 sequences quick (each costs seconds: every failed attempt waits ConnectTimeout = 1 s in the library's Close), 2500 thorough. Waiting times are bounded (8 s + down time per reconnection; confirmed with 4x margins before a violation is reported); the number of refused dial attempts while the listener is closed cannot be observed and is not asserted.",
+    ),
     "C11": dict(
         technique="history/fault-sequence property test (rapid): connection histories with every reply to <resume/>, real Client (Connect + Resume) against the scripted peer; model of the resumable id and counters",
         level_text="Fault enumeration over the reply alphabet of <resume/> (resumed same id, other id, <failed/> empty / with h / with each XEP-0198 condition, unexpected element, malformed, close) x SM advertised or not, composed into generated histories of 2-5 connections of one Client. A model tracks the id handed out at the last enable and the stanzas received on that session: <resume/> only with that id and count; same id => no bind and identity, counter and held stanzas kept; <failed/> => fresh bind; anything else => stale id dropped, never presented again, old session not continued.",
